@@ -78,7 +78,7 @@ func runC16(c *core.Ctx) {
 	c.Doc("C16.terminate", "Terminate takes the objects out of the service under the exclusive lock and runs their hooks afterwards, outside the lock", 2)
 	ruleTerminateDetaches(c, lc, objects, boxes, class)
 
-	c.Doc("C16.unique-id", "Add stores under a key only after a failed lookup of it (or for the first object)", 1)
+	c.Doc("C16.unique-id", "Add stores under a key only after a failed lookup of that very key", 1)
 	ruleUniqueID(c, objects)
 
 	c.Doc("C16.subscribers", "OnTerminate hands every former subscriber the termination error and drops its handler", 2)
@@ -320,28 +320,93 @@ func ruleUniqueID(c *core.Ctx, objects *types.Var) {
 		return
 	}
 	unit := unitOf(c, fn)
-	var ms []core.EdgeMatcher
+	var lookups []*ssa.Lookup
 	var stores []*ssa.MapUpdate
 	for _, f := range unit {
 		for _, lk := range mapLookups(f, objects) {
 			if lk.CommaOk {
-				ms = append(ms, core.IsFalse(okOf(lk)))
+				lookups = append(lookups, lk)
 			}
 		}
 		ups, _ := mapWrites(f, objects)
 		stores = append(stores, ups...)
 	}
-	if len(ms) == 0 || len(stores) == 0 {
+	if len(lookups) == 0 || len(stores) == 0 {
 		c.Fail(rule, "bus.serviceImpl.Add", fn.Pos(), "Add does not check that the identifier is free before using it")
 		return
 	}
+	// the first store of an identifier (the placeholder, or the object itself) is behind a
+	// failed lookup of that very identifier; later stores under the same key (the object
+	// replacing its placeholder) re-use the key that was reserved
 	bad := ""
+	reserved := map[ssa.Value]bool{}
 	for _, up := range stores {
-		if !guardedUp(c, up.Parent(), up, core.AnyOf(ms...)) {
-			bad = "Add can store an object under an identifier already in use (at " + c.Pos(up.Pos()) + "): the previous object is silently replaced and never terminated"
+		var ms []core.EdgeMatcher
+		for _, lk := range lookups {
+			if core.SameValue(lk.Index, up.Key) || (lk.Parent() != up.Parent() && sameParamPosition(lk.Index, up.Key)) {
+				ms = append(ms, core.IsFalse(okOf(lk)))
+			}
 		}
+		if len(ms) > 0 && guardedUp(c, up.Parent(), up, core.AnyOf(ms...)) {
+			reserved[core.Canon(up.Key)] = true
+			continue
+		}
+		// the key was chosen by a helper that only returns identifiers it looked up and
+		// found free (index = s.pickIndex()), possibly handed on to the helper that stores
+		key := core.Canon(up.Key)
+		if p, isParam := key.(*ssa.Parameter); isParam && isPrivateHelper(c, up.Parent()) {
+			all, _ := c.CallSites()
+			if sites := all[up.Parent()]; len(sites) == 1 {
+				for i, q := range up.Parent().Params {
+					if q == p && i < len(sites[0].Common().Args) {
+						key = core.Canon(sites[0].Common().Args[i])
+					}
+				}
+			}
+		}
+		if cr, _ := core.CallResult(key); cr != nil {
+			if h := cr.Call.StaticCallee(); h != nil && isPrivateHelper(c, h) && len(h.Blocks) > 0 {
+				free := true
+				nret := 0
+				for _, r := range core.Returns(h) {
+					if len(r.Results) == 0 {
+						free = false
+						continue
+					}
+					nret++
+					v := core.RetVal(r, 0)
+					okRet := false
+					for _, lk := range mapLookups(h, objects) {
+						if lk.CommaOk && core.SameValue(lk.Index, v) && core.Guarded(h, r, core.IsFalse(okOf(lk))) {
+							okRet = true
+						}
+					}
+					if !okRet {
+						free = false
+					}
+				}
+				if free && nret > 0 {
+					reserved[core.Canon(up.Key)] = true
+					reserved[key] = true
+					continue
+				}
+			}
+		}
+		if reserved[core.Canon(up.Key)] {
+			continue
+		}
+		again := false
+		for k := range reserved {
+			if core.SameValue(k, up.Key) {
+				again = true
+			}
+		}
+		if again {
+			continue
+		}
+		bad = "Add can store an object under an identifier that was not looked up and found free (at " + c.Pos(up.Pos()) + "): an identifier in use — 0, once the object 1 has been removed — is handed out again, the previous object is silently replaced and never terminated"
 	}
-	c.Check(bad == "", rule, "bus.serviceImpl.Add/store", stores[0].Pos(), "an id is stored only after a lookup of it failed (or no first object exists)", bad)
+	c.Check(bad == "", rule, "bus.serviceImpl.Add/store", stores[0].Pos(), "an id is stored only after a lookup of that id failed", bad)
 }
 
 func ruleSubscribersTold(c *core.Ctx) {
@@ -585,4 +650,16 @@ func ruleTerminateDetaches(c *core.Ctx, lc *core.LockCache, objects, boxes *type
 	}
 	c.Check(so != nil && sb != nil, rule, "bus.serviceImpl.Terminate/detach", fn.Pos(), "objects and boxes are replaced by empty tables in an exclusive critical section",
 		"Terminate leaves the objects (or their mailboxes) registered")
+}
+
+// sameParamPosition: a and b are the same parameter of their functions by
+// position (a lookup in a helper, the store in another helper, both handed the
+// caller's index).
+func sameParamPosition(a, b ssa.Value) bool {
+	pa, ok1 := core.Canon(a).(*ssa.Parameter)
+	pb, ok2 := core.Canon(b).(*ssa.Parameter)
+	if !ok1 || !ok2 {
+		return false
+	}
+	return pa.Name() == pb.Name() && types.Identical(pa.Type(), pb.Type())
 }
